@@ -181,3 +181,19 @@ Proof.
   destruct out as [st vals]. cbn [frame_ok wswap wa wb wal] in *. intros Hne. destruct (H Hne) as (H1 & H2 & H3). auto.
 Qed.
 End Frame.
+
+(* ------------------------------------------------------------------------------------------ the generated guards (C16) *)
+(** The range guards are regenerated from cc_list.c on every run; these lemmas say that each of them is true exactly
+    when the documented range is violated (they stop checking if the condition in the C source changes). *)
+Lemma g_get_node_at_range_iff hdr index size : hdr <> 0 -> (g_list_get_node_at_range hdr index size = true <-> size <= index).
+Proof. intros H. unfold g_list_get_node_at_range. replace (hdr =? 0) with false by lia. cbn [negb orb]. lia. Qed.
+Lemma g_get_node_at_front_iff index size : g_list_get_node_at_front index size = true <-> index < size / 2.
+Proof. unfold g_list_get_node_at_front. lia. Qed.
+Lemma g_add_all_at_range_iff index size : g_list_add_all_at_range index size = true <-> size < index.
+Proof. unfold g_list_add_all_at_range. lia. Qed.
+Lemma g_splice_at_range_iff index size : g_list_splice_at_range index size = true <-> size < index.
+Proof. unfold g_list_splice_at_range. lia. Qed.
+Lemma g_sublist_range_iff b e size : g_list_sublist_range b e size = true <-> (e < b \/ size <= e).
+Proof. unfold g_list_sublist_range. lia. Qed.
+Lemma g_reverse_trivial_iff size : g_list_reverse_trivial size = true <-> size < 2.
+Proof. unfold g_list_reverse_trivial. lia. Qed.
